@@ -47,7 +47,16 @@ else:
     flags = "-std=gnu++17 -g -O1"
     link_san = ""
 
-incs = ["-I" + os.path.join(repo, "src", "api"), "-I" + os.path.join(repo, "src", "api", "libcellml", "module"), "-I" + os.path.join(B, "lib", "src", "api"), "-I" + os.path.join(HERE, "kit")] + ["-I" + i for i in xml_inc]
+# Files generated from the headers of the repository under test live in the build directory (never in /verif itself, which a
+# check run must not modify): gen/c15_enums.inc = X-macro lists of Issue::ReferenceRule, Issue::Level and CellmlElementType.
+gen_dir = os.path.join(B, "h", "gen")
+os.makedirs(gen_dir, exist_ok=True)
+_r = subprocess.run([sys.executable, os.path.join(HERE, "bin", "c15_enums.py"), repo, "--write", os.path.join(gen_dir, "c15_enums.inc")], stdout=subprocess.PIPE, stderr=subprocess.STDOUT, text=True)
+if _r.returncode != 0:
+    sys.stderr.write(_r.stdout)
+    sys.exit(2)
+
+incs = ["-I" + os.path.join(repo, "src", "api"), "-I" + os.path.join(repo, "src", "api", "libcellml", "module"), "-I" + os.path.join(B, "lib", "src", "api"), "-I" + os.path.join(HERE, "kit"), "-I" + gen_dir] + ["-I" + i for i in xml_inc]
 # Internal headers are available to harnesses that say so explicitly (hidden-visibility symbols link from the static archive).
 incs_internal = ["-I" + os.path.join(repo, "src"), "-I" + os.path.join(B, "lib", "src")]
 archive = os.path.join(B, "lib", "src", "libcellmld.a")
